@@ -65,6 +65,7 @@ def validate(cases, tag):
         h.update(open(os.path.join(build.VERIF, "mc", fn), "rb").read())
     for c in cases:
         h.update(c.text.encode())
+        h.update(str(c.attrs.get("nasm_text", "")).encode() + (b"H" if c.attrs.get("hand") else b""))
         h.update(repr((c.op, c.ops, c.flags)).encode())
     key = h.hexdigest()[:20]
     cdir = os.path.join(build.BUILD, "oracle-cache")
